@@ -6,6 +6,7 @@
 -/
 import MosVerif.Lemmas.AddrSpec
 import MosVerif.Model.TlsCfg
+import MosVerif.Lemmas.TranslatedC17
 import MosVerif.Generated.Facts
 namespace MosVerif.C17
 open MosVerif.Addr
@@ -668,16 +669,15 @@ example : specLiHist ⟨.good 1, .good 1, .good 1, false, true, false⟩
 
 /-! ## tie: pinned source facts -/
 
-/-- `tryTrimIpv6Brackets`: guard, bracket test and slice bounds `s[1 : len(s)-1]` (D10 was `len(s)-2`). -/
+/-- `tryTrimIpv6Brackets`: slice bounds `s[1 : len(s)-1]` (D10 was `len(s)-2`); the guard `len(s) < 2` and the bracket
+    test are tied by translation (`Addr.trimLenCond_translated`, `Addr.trimBracketCond_translated`). -/
 theorem pins_trim :
-    Facts.addr_trimLenCond = "len(s) < 2" ∧
-    Facts.addr_trimBracketCond = "s[0] == '[' && s[len(s)-1] == ']'" ∧
     Facts.addr_trimSlice = "return s[1 : len(s)-1]" ∧
     Facts.addr_trimCall = "urlAddrHost := tryTrimIpv6Brackets(addrURL.Host)" := by decide
 
-/-- `getDialAddr` / `dialNetworkTcpOrUnix`: precedence of `dial_addr`, the `@` tests, default port joins. -/
+/-- `getDialAddr` / `dialNetworkTcpOrUnix`: the `@` tests, default port joins (the tests `len(dialAddr) > 0` and
+    `len(port) == 0` are tied by translation, `Addr.gdaDialCond_translated`, `Addr.gdaPortCond1/2_translated`). -/
 theorem pins_dialaddr :
-    Facts.addr_gdaDialCond = "len(dialAddr) > 0" ∧
     Facts.addr_gdaUnixCond = "strings.HasPrefix(dialAddr, \"@\")" ∧
     Facts.addr_netUnixCond = "strings.HasPrefix(dialAddr, \"@\")" ∧
     Facts.addr_gdaPortConds = 2 ∧
@@ -710,12 +710,11 @@ theorem pins_tls :
     Facts.tlscfg_clientAuth = "c.ClientAuth = tls.RequireAndVerifyClientCert" ∧
     Facts.tlscfg_caCond = "len(cfg.CA) > 0" ∧
     Facts.tlscfg_rootCAs = "c.RootCAs = pool" ∧ Facts.tlscfg_clientCAs = "c.ClientCAs = pool" ∧
-    Facts.tlscfg_requireCond = "requireCert && (cfg.Cert == \"\" || cfg.Key == \"\") && !cfg.DebugUseTempCert" ∧
     Facts.tlscfg_upstreamCfgArg = "&cfg.Tls" ∧ Facts.tlscfg_upstreamArg = "false" ∧
     Facts.tlscfg_tcpArg = "true" ∧ Facts.tlscfg_httpArg = "true" ∧ Facts.tlscfg_quicArg = "true" ∧
     Facts.tlscfg_upstreamOpt = "opt := upstream.Opt{ DialAddr: cfg.DialAddr, Logger: r.subLoggerForUpstream(cfg.Tag), TLSConfig: tlsConfig, Control: controlSocket(controlOpts), }" ∧
     Facts.tlscfg_tcpServerHandshake = "tlsConn := tls.Server(c, s.tlsConfig)" := by
-  refine ⟨?_, ?_, ?_, ?_, ?_, ?_, ?_, ?_, ?_, ?_, ?_, ?_, ?_, ?_⟩ <;> rfl
+  refine ⟨?_, ?_, ?_, ?_, ?_, ?_, ?_, ?_, ?_, ?_, ?_, ?_, ?_⟩ <;> rfl
 
 
 /-- both legs of a udp upstream close over the same `dialAddr` expression; `NewUpstream` builds no nested
